@@ -1111,3 +1111,504 @@ Proof.
   - right. right. right. split; [exact C3|lia].
   - exists st', []. replace (Z.min f start) with f in R' by lia. auto.
 Qed.
+
+(* ---- 5. histories of partial writes ------------------------------------------------------------------------------- *)
+Definition pwrite := (dtype * Z * list (list Z))%type.     (* memory type, start, new elements *)
+Fixpoint poly_spec_run (ph : list Z) (f : Z) (E : list (list Z)) (ws : list pwrite) : Z * list (list Z) :=
+  match ws with
+  | [] => (f, E)
+  | (_, start, N) :: r => poly_spec_run ph (Z.min f start) (splice ph f E start N) r
+  end.
+Fixpoint poly_impl_run (pv : pvariant) (st : section) (ws : list pwrite) : res section :=
+  match ws with
+  | [] => ROk st
+  | (mt, start, N) :: r =>
+      match poly_elements_general_write pv st start (start + lenZ N - 1) mt (concat N) (offs_from 0 N) with
+      | ROk st' => poly_impl_run pv st' r
+      | RErr => RErr | RFault => RFault
+      end
+  end.
+
+Theorem poly_history_is_splice pv ws : forall st f E slack,
+  rep_poly st f E slack -> s_par st = None ->
+  Forall (fun w : pwrite => snd w <> [] /\ nonempty_all (snd w)) ws ->
+  exists st' slack', poly_impl_run pv st ws = ROk st' /\
+     rep_poly st' (fst (poly_spec_run (ph_of (s_type st)) f E ws)) (snd (poly_spec_run (ph_of (s_type st)) f E ws)) slack' /\
+     s_par st' = None /\ s_type st' = s_type st /\ s_dt st' = s_dt st.
+Proof.
+  induction ws as [|[[mt start] N] r IH]; intros st f E slack R Hpar HW.
+  - exists st, slack. simpl. auto.
+  - inversion HW as [|? ? [HN AN] HR]; subst. simpl in HN, AN.
+    destruct (poly_write_is_splice pv st f E slack start N mt R Hpar HN AN) as (st1 & sl1 & W & R1 & P1 & T1 & D1).
+    destruct (IH st1 _ _ sl1 R1 P1 HR) as (st' & sl' & W' & R' & P' & T' & D').
+    exists st', sl'. simpl. rewrite W. rewrite T1 in R'.
+    split; [exact W'|]. split; [exact R'|]. split; [exact P'|]. split; congruence.
+Qed.
+
+(* ---- 6. reads ---------------------------------------------------------------------------------------------------- *)
+Lemma range_decomp f (E : list (list Z)) a b :
+  f <= a -> a <= b -> b <= f + lenZ E - 1 ->
+  exists Hd Mid T, E = Hd ++ Mid ++ T /\ a = f + lenZ Hd /\ lenZ Mid = b - a + 1 /\ slice_elems f E a b = Mid.
+Proof.
+  intros H1 H2 H3.
+  exists (firstn (Z.to_nat (a - f)) E), (firstn (Z.to_nat (b - a + 1)) (skipn (Z.to_nat (a - f)) E)),
+         (skipn (Z.to_nat (a - f) + Z.to_nat (b - a + 1)) E).
+  split; [apply three_way|]. split; [rewrite lenZ_firstnZ; lia|]. split; [|reflexivity].
+  unfold lenZ. rewrite firstn_length, skipn_length. unfold lenZ in *. lia.
+Qed.
+
+Lemma offs_three b Hd Mid T :
+  offs_from b (Hd ++ Mid ++ T) = offs_init b Hd ++ offs_from (b + clen Hd) Mid ++ tl (offs_from (b + clen Hd + clen Mid) T).
+Proof. now rewrite offs_from_app, offs_from_app_tl. Qed.
+
+Lemma rebase_offs c M : rebase (offs_from c M) = offs_from 0 M.
+Proof.
+  unfold rebase. replace (hd 0 (offs_from c M)) with c by (destruct M; reflexivity).
+  rewrite (map_ext _ (fun v => v + (- c))) by (intros; lia). rewrite offs_shift. f_equal. lia.
+Qed.
+
+(* cg_poly_elements_partial_read: from the file (not cached, stored as cgsize_t) or through the cache it fills
+   (cached, or stored as I4); the start offsets come back rebased to 0. *)
+Theorem poly_partial_read_is_slice st f E slack a b :
+  rep_poly st f E slack -> f <= a -> a <= b -> b <= f + lenZ E - 1 ->
+  exists st', poly_elements_partial_read st a b false
+              = ROk (st', [concat (slice_elems f E a b); offs_from 0 (slice_elems f E a b)])
+              /\ rep_poly st' f E slack /\ s_par st' = s_par st /\ s_type st' = s_type st /\ s_dt st' = s_dt st.
+Proof.
+  intros R H1 H2 H3.
+  destruct (range_decomp f E a b H1 H2 H3) as (Hd & Mid & T & EQ & HA & LM & ->).
+  pose proof (rq_all _ _ _ _ R) as A. rewrite EQ in A. apply Forall_app in A as [A1 A2]. apply Forall_app in A2 as [A2 A3].
+  pose proof (nonempty_all_clen Mid A2) as CM.
+  pose proof (lenZ_nonneg Hd). pose proof (lenZ_nonneg T). pose proof (lenZ_nonneg slack).
+  pose proof (clen_nonneg T). pose proof (clen_nonneg Hd).
+  unfold poly_elements_partial_read.
+  rewrite (rq_r0 _ _ _ _ R), (rq_r1 _ _ _ _ R), (rq_hasoff _ _ _ _ R). zb. cbn [orb negb].
+  destruct (read_offset_data_rep st f E slack R) as (s0 & -> & F0).
+  destruct F0 as (F01 & F02 & F03 & F04 & F05 & F06 & F07 & F08 & F09 & F010 & F011 & F012).
+  assert (O1 : nthZ (offs_from 0 E) (a - f) undef = clen Hd).
+  { rewrite EQ. rewrite (nthZ_offs_app 0 Hd) by lia. lia. }
+  assert (O2 : nthZ (offs_from 0 E) (b - f + 1) undef = clen Hd + clen Mid).
+  { rewrite EQ, (app_assoc Hd Mid T). rewrite (nthZ_offs_app 0 (Hd ++ Mid)) by (lens; lia). rewrite clen_app. lia. }
+  rewrite O1, O2.
+  assert (CO : rebase (slice (offs_from 0 E) (a - f) (b - a + 2)) = offs_from 0 Mid).
+  { rewrite EQ, offs_three. rewrite slice_at by (rewrite ?offs_init_length, ?offs_from_length; lia). apply rebase_offs. }
+  rewrite CO.
+  assert (LT : (lenZ (offs_from 0 E) <? b - f + 2) = false) by (rewrite offs_from_length; zb; reflexivity).
+  rewrite LT.
+  assert (CONN : s_conn st = concat Hd ++ concat Mid ++ concat T ++ slack).
+  { rewrite (rq_conn _ _ _ _ R), EQ, !concat_app, <- !app_assoc. reflexivity. }
+  assert (PP : forall s', parent_partial s' a b false = ROk (s', [])) by reflexivity.
+  destruct (is_none (s_conn_mem s0) && is_size_t (s_dt s0)) eqn:HB.
+  - rewrite F06, CONN.
+    rewrite (file_read_at (concat Hd) (concat Mid) (concat T ++ slack)) by (lens2; lia).
+    rewrite PP. eexists. split; [reflexivity|]. split; [|auto].
+    constructor; rewrite ?F01, ?F03, ?F04, ?F05, ?F06, ?F07, ?F08, ?F09, ?F010, ?F011; auto; try apply R.
+    intros _. discriminate.
+  - destruct (read_element_data_rep s0 st f E slack R F05 F06 F07) as (s1 & -> & F1).
+    destruct F1 as (F11 & F12 & F13 & F14 & F15 & F16 & F17 & F18 & F19 & F110 & F111 & F112).
+    replace (clen Hd + clen Mid - clen Hd) with (clen Mid) by lia.
+    assert (LD : lenZ (concat E ++ slack) = clen Hd + clen Mid + clen T + lenZ slack).
+    { rewrite EQ. lens2. lia. }
+    rewrite LD. zb. cbn [orb].
+    assert (SL : slice (concat E ++ slack) (clen Hd) (clen Mid) = concat Mid).
+    { rewrite EQ, !concat_app, <- !app_assoc. now apply slice_at. }
+    rewrite SL, PP. eexists. split; [reflexivity|]. split; [|repeat split; congruence].
+    constructor; rewrite ?F11, ?F13, ?F14, ?F15, ?F16, ?F17, ?F18, ?F19, ?F110, ?F111,
+                         ?F01, ?F03, ?F04, ?F05, ?F06, ?F07, ?F08, ?F09, ?F010, ?F011; auto; try apply R.
+    intros _. discriminate.
+Qed.
+
+(* cg_poly_elements_general_read: always from the two nodes on file; state unchanged *)
+Theorem poly_general_read_is_slice st f E slack a b mt :
+  rep_poly st f E slack -> f <= a -> a <= b -> b <= f + lenZ E - 1 ->
+  poly_elements_general_read st a b mt
+  = ROk (st, [concat (slice_elems f E a b); offs_from 0 (slice_elems f E a b)]).
+Proof.
+  intros R H1 H2 H3.
+  destruct (range_decomp f E a b H1 H2 H3) as (Hd & Mid & T & EQ & HA & LM & ->).
+  pose proof (rq_all _ _ _ _ R) as A. rewrite EQ in A. apply Forall_app in A as [A1 A2]. apply Forall_app in A2 as [A2 A3].
+  pose proof (nonempty_all_clen Mid A2) as CM.
+  pose proof (lenZ_nonneg Hd). pose proof (lenZ_nonneg T). pose proof (lenZ_nonneg slack).
+  pose proof (clen_nonneg T). pose proof (clen_nonneg Hd).
+  unfold poly_elements_general_read.
+  rewrite (rq_r0 _ _ _ _ R), (rq_r1 _ _ _ _ R), (rq_hasoff _ _ _ _ R). zb. cbn [orb negb].
+  rewrite (rq_off _ _ _ _ R), EQ, offs_three.
+  rewrite (file_read_at (offs_init 0 Hd) (offs_from (0 + clen Hd) Mid))
+    by (rewrite ?offs_init_length, ?offs_from_length; lia).
+  replace (hd 0 (offs_from (0 + clen Hd) Mid)) with (clen Hd) by (destruct Mid; simpl; lia).
+  replace (b - a + 1) with (lenZ Mid) by lia. rewrite nthZ_offs_from_last.
+  zb.
+  rewrite (rq_conn _ _ _ _ R), EQ, !concat_app, <- !app_assoc.
+  rewrite (file_read_at (concat Hd) (concat Mid) (concat T ++ slack)) by (lens2; lia).
+  now rewrite rebase_offs.
+Qed.
+
+(* the rebased offsets, pointwise: off'[i] = off[first + i] - off[first] *)
+Lemma poly_read_offsets_rebased f E a b i :
+  f <= a -> a <= b -> b <= f + lenZ E - 1 -> 0 <= i <= b - a + 1 ->
+  nthZ (offs_from 0 (slice_elems f E a b)) i 0
+  = nthZ (offs_from 0 E) (a - f + i) 0 - nthZ (offs_from 0 E) (a - f) 0.
+Proof.
+  intros H1 H2 H3 Hi.
+  destruct (range_decomp f E a b H1 H2 H3) as (Hd & Mid & T & EQ & HA & LM & ->).
+  pose proof (lenZ_nonneg Hd).
+  rewrite EQ. rewrite (nthZ_offs_app 0 Hd (Mid ++ T) (a - f)) by lia.
+  rewrite nthZ_offs_from by lia.
+  rewrite nthZ_offs_from by (lens; pose proof (lenZ_nonneg T); lia).
+  replace (Z.to_nat (a - f + i)) with (length Hd + Z.to_nat i)%nat by (unfold lenZ in *; lia).
+  rewrite firstn_app_2, clen_app. rewrite firstn_app.
+  replace (Z.to_nat i - length Mid)%nat with 0%nat by (unfold lenZ in *; lia).
+  cbn [firstn]. rewrite app_nil_r. lia.
+Qed.
+
+(* ---- cg_poly_elements_read (the whole section) and its "double check" ---------------------------------------------- *)
+(* a MIXED element is (type, nodes...) with cg_npe type = number of nodes > 0 *)
+Definition mixed_elem_ok (e : list Z) : Prop :=
+  match e with t :: r => cg_npe t = Some (lenZ r) /\ 0 < lenZ r | [] => False end.
+Definition elems_ok (type : Z) (E : list (list Z)) : Prop := type = MIXED -> Forall mixed_elem_ok E.
+
+Lemma mixed_walk_spec E : Forall mixed_elem_ok E -> forall pre post,
+  mixed_walk (length E) (pre ++ concat E ++ post) (lenZ pre) = lenZ pre + clen E.
+Proof.
+  induction 1 as [|e E He HE IH]; intros pre post.
+  - simpl. rewrite clen_nil. lia.
+  - destruct e as [|t r]; [contradiction|]. destruct He as [Hn Hp].
+    cbn [length mixed_walk concat]. rewrite <- !app_assoc. cbn [app].
+    rewrite nthZ_app_at, Hn. zb.
+    replace (pre ++ t :: r ++ concat E ++ post) with ((pre ++ t :: r) ++ concat E ++ post)
+      by (rewrite <- app_assoc; reflexivity).
+    replace (lenZ pre + 1 + lenZ r) with (lenZ (pre ++ t :: r)) by (lens; lia).
+    rewrite IH. rewrite clen_cons. lens. lia.
+Qed.
+
+(* node size = what the start offsets say (no reserved space behind the elements) *)
+Definition slack_free_b (st : section) : bool :=
+  s_dim st =? nthZ (s_off st) (s_r1 st - s_r0 st + 1) 0 - nthZ (s_off st) 0 0.
+(* when the full read answers, per variant of its double check *)
+Definition full_read_pre (rv : rvariant) (st : section) : bool :=
+  match rv with
+  | RFixed => true
+  | RCurrent => is_none (s_conn_mem st) || slack_free_b st
+  | ROld => is_none (s_conn_mem st) || (((s_type st =? MIXED) || is_size_t (s_dt st)) && slack_free_b st)
+  end.
+
+Lemma slack_free_spec st f E slack : rep_poly st f E slack -> slack_free_b st = true <-> slack = [].
+Proof.
+  intros R. unfold slack_free_b.
+  rewrite (rq_off _ _ _ _ R), (rq_r0 _ _ _ _ R), (rq_r1 _ _ _ _ R), (rq_dim _ _ _ _ R).
+  replace (f + lenZ E - 1 - f + 1) with (lenZ E) by lia. rewrite nthZ_offs_from_last, nthZ_offs_from_0.
+  pose proof (lenZ_nonneg slack). split.
+  - intros Q. apply Z.eqb_eq in Q. apply lenZ_zero_nil. lia.
+  - intros ->. apply Z.eqb_eq. rewrite lenZ_nil. lia.
+Qed.
+
+Lemma poly_count st f E slack (od : option (list Z)) :
+  rep_poly st f E slack -> elems_ok (s_type st) E ->
+  (s_conn_mem st <> None -> s_type st <> MIXED -> od = Some (offs_from 0 E)) ->
+  element_data_size (s_type st) (s_r1 st - s_r0 st + 1) (s_conn_mem st) od
+  = match s_conn_mem st with None => 0 | Some _ => clen E end.
+Proof.
+  intros R OK HO. unfold element_data_size.
+  rewrite (rq_r0 _ _ _ _ R), (rq_r1 _ _ _ _ R). replace (f + lenZ E - 1 - f + 1) with (lenZ E) by lia.
+  destruct (Z.eqb_spec (s_type st) MIXED) as [TM|TM].
+  - destruct (rq_mem _ _ _ _ R) as [M|M]; rewrite M; [reflexivity|].
+    rewrite to_nat_lenZ. apply (mixed_walk_spec E (OK TM) [] slack).
+  - assert (TT : (s_type st =? NGON_n) || (s_type st =? NFACE_n) = true).
+    { pose proof (rq_type _ _ _ _ R) as TP. unfold is_poly_type in TP.
+      destruct (Z.eqb_spec (s_type st) MIXED); [contradiction|]. exact TP. }
+    rewrite TT. destruct (rq_mem _ _ _ _ R) as [M|M]; rewrite M; [reflexivity|].
+    rewrite HO by (auto; congruence). rewrite nthZ_offs_from_last, nthZ_offs_from_0. lia.
+Qed.
+
+Lemma poly_read_output st f E slack :
+  rep_poly st f E slack ->
+  conn_all st = concat E ++ slack /\
+  match s_off_mem st with
+  | Some m => if is_size_t (s_dt st) then firstn (Z.to_nat (s_odim st)) m else firstn (Z.to_nat (s_odim st)) (s_off st)
+  | None => firstn (Z.to_nat (s_odim st)) (s_off st)
+  end = offs_from 0 E.
+Proof.
+  intros R.
+  assert (FA : firstn (Z.to_nat (s_dim st)) (concat E ++ slack) = concat E ++ slack).
+  { apply firstn_all2. rewrite (rq_dim _ _ _ _ R), app_length. unfold clen, lenZ. lia. }
+  assert (FO : firstn (Z.to_nat (s_odim st)) (offs_from 0 E) = offs_from 0 E).
+  { apply firstn_all2. rewrite (rq_odim _ _ _ _ R). pose proof (offs_from_length 0 E). unfold lenZ in *. lia. }
+  split.
+  - unfold conn_all. rewrite (rq_conn _ _ _ _ R).
+    destruct (rq_mem _ _ _ _ R) as [M|M]; rewrite M; [exact FA|]. destruct (is_size_t _); exact FA.
+  - rewrite (rq_off _ _ _ _ R).
+    destruct (rq_omem _ _ _ _ R) as [M|M]; rewrite M; [exact FO|]. destruct (is_size_t _); exact FO.
+Qed.
+
+(* the full read answers exactly under full_read_pre; it then returns the whole connectivity node (elements, then
+   any reserved space) and the start offsets *)
+Theorem poly_full_read rv st f E slack :
+  rep_poly st f E slack -> elems_ok (s_type st) E -> full_read_pre rv st = true ->
+  poly_elements_read rv st false = ROk (st, [concat E ++ slack; offs_from 0 E]).
+Proof.
+  intros R OK PRE.
+  destruct (poly_read_output st f E slack R) as [OC OO].
+  pose proof (nonempty_all_clen E (rq_all _ _ _ _ R)) as CE. pose proof (nonempty_len E (rq_ne _ _ _ _ R)) as LE.
+  pose proof (lenZ_nonneg slack) as PS.
+  unfold poly_elements_read. rewrite (rq_hasoff _ _ _ _ R). cbn [andb].
+  assert (PA : parent_all st false = []) by reflexivity. rewrite PA, OC, OO.
+  destruct (rq_mem _ _ _ _ R) as [M|M].
+  - (* not cached: count = 0 *)
+    rewrite (poly_count st f E slack) by (auto; intros C; rewrite M in C; congruence).
+    rewrite M. cbn. destruct rv; reflexivity.
+  - assert (OM : s_off_mem st = Some (offs_from 0 E)).
+    { destruct (rq_omem _ _ _ _ R) as [Q|Q]; [|exact Q]. exfalso. apply (rq_coh _ _ _ _ R); [congruence|exact Q]. }
+    assert (SF : slack_free_b st = true -> s_dim st = clen E).
+    { intros Q. apply (slack_free_spec st f E slack R) in Q. rewrite (rq_dim _ _ _ _ R), Q, lenZ_nil. lia. }
+    destruct rv; unfold full_read_pre in PRE; rewrite ?M in PRE; cbn [is_none orb] in PRE.
+    + apply andb_prop in PRE as [P1 P2].
+      rewrite (poly_count st f E slack); auto.
+      * rewrite M. rewrite (SF P2). zb. reflexivity.
+      * intros _ TM. destruct (Z.eqb_spec (s_type st) MIXED); [contradiction|]. cbn [orb] in P1. now rewrite P1.
+    + rewrite (poly_count st f E slack) by auto. rewrite M. rewrite (SF PRE). zb. reflexivity.
+    + rewrite (poly_count st f E slack) by auto. rewrite M. rewrite (rq_dim _ _ _ _ R). zb. reflexivity.
+Qed.
+
+(* ... and fails (CG_ERROR) on every represented state outside it: for RCurrent that is "connectivity cached and
+   reserved space behind the elements" -- the finding poly-read-fails-reserved-slack-cached, for all such states *)
+Theorem poly_full_read_refuted_all rv st f E slack :
+  rep_poly st f E slack -> elems_ok (s_type st) E -> full_read_pre rv st = false ->
+  poly_elements_read rv st false = RErr.
+Proof.
+  intros R OK PRE.
+  pose proof (nonempty_all_clen E (rq_all _ _ _ _ R)) as CE. pose proof (nonempty_len E (rq_ne _ _ _ _ R)) as LE.
+  pose proof (lenZ_nonneg slack) as PS.
+  unfold poly_elements_read. rewrite (rq_hasoff _ _ _ _ R). cbn [andb].
+  destruct (rq_mem _ _ _ _ R) as [M|M]; [destruct rv; unfold full_read_pre in PRE; rewrite ?M in PRE; discriminate|].
+  assert (OM : s_off_mem st = Some (offs_from 0 E)).
+  { destruct (rq_omem _ _ _ _ R) as [Q|Q]; [|exact Q]. exfalso. apply (rq_coh _ _ _ _ R); [congruence|exact Q]. }
+  assert (SF : slack_free_b st = false -> s_dim st <> clen E).
+  { intros Q C. assert (slack = []) as S0 by (apply lenZ_zero_nil; rewrite (rq_dim _ _ _ _ R) in C; lia).
+    apply (slack_free_spec st f E slack R) in S0. congruence. }
+  destruct rv; unfold full_read_pre in PRE; rewrite ?M in PRE; cbn [is_none orb] in PRE; try discriminate.
+  - destruct (Z.eqb_spec (s_type st) MIXED) as [TM|TM]; cbn [orb] in PRE.
+    + rewrite (poly_count st f E slack); auto; [|congruence]. rewrite M. pose proof (SF PRE). zb. reflexivity.
+    + destruct (is_size_t (s_dt st)) eqn:DT; cbn [andb] in PRE.
+      * rewrite (poly_count st f E slack) by auto. rewrite M. pose proof (SF PRE). zb. reflexivity.
+      * (* NGON_n / NFACE_n stored as I4: the cached offsets are ignored, "missing ElementStartOffset" *)
+        unfold element_data_size. destruct (Z.eqb_spec (s_type st) MIXED); [contradiction|].
+        assert (TT : (s_type st =? NGON_n) || (s_type st =? NFACE_n) = true).
+        { pose proof (rq_type _ _ _ _ R) as TP. unfold is_poly_type in TP.
+          destruct (Z.eqb_spec (s_type st) MIXED); [contradiction|]. exact TP. }
+        rewrite TT, M. reflexivity.
+  - rewrite (poly_count st f E slack) by auto. rewrite M. pose proof (SF PRE). zb. reflexivity.
+Qed.
+
+(* ---- 7. what (connectivity, start offsets) say about the elements --------------------------------------------------- *)
+Record represents (data offs : list Z) (S : list (list Z)) : Prop := mkRepr {
+  rp_len : lenZ offs = lenZ S + 1;
+  rp_first : nthZ offs 0 0 = 0;
+  rp_last : nthZ offs (lenZ S) 0 = lenZ data;
+  rp_mono : forall i, 0 <= i < lenZ S -> nthZ offs i 0 < nthZ offs (i + 1) 0;
+  rp_elem : forall i, 0 <= i < lenZ S ->
+            slice data (nthZ offs i 0) (nthZ offs (i + 1) 0 - nthZ offs i 0) = nthZ S i []
+}.
+
+Lemma firstn1_skipn {A} (S : list A) k d : (k < length S)%nat -> firstn 1 (skipn k S) = [nth k S d].
+Proof.
+  revert k. induction S as [|x S IH]; intros k Hk; simpl in Hk; [lia|]. destruct k; [reflexivity|].
+  simpl. apply IH. lia.
+Qed.
+
+Lemma clen_single x : clen [x] = lenZ x.
+Proof. unfold clen. cbn [concat]. now rewrite app_nil_r. Qed.
+
+Lemma offs_step S i : 0 <= i < lenZ S ->
+  nthZ (offs_from 0 S) i 0 = clen (firstn (Z.to_nat i) S) /\
+  nthZ (offs_from 0 S) (i + 1) 0 = clen (firstn (Z.to_nat i) S) + lenZ (nthZ S i []) /\
+  slice (concat S) (nthZ (offs_from 0 S) i 0) (nthZ (offs_from 0 S) (i + 1) 0 - nthZ (offs_from 0 S) i 0) = nthZ S i [].
+Proof.
+  intros Hi. rewrite !nthZ_offs_from by lia.
+  replace (Z.to_nat (i + 1)) with (Z.to_nat i + 1)%nat by lia.
+  rewrite firstn_plus, clen_app, (firstn1_skipn S (Z.to_nat i) []) by (unfold lenZ in *; lia).
+  assert (NT : nthZ S i [] = nth (Z.to_nat i) S []) by (unfold nthZ; zb; reflexivity).
+  rewrite NT, clen_single.
+  split; [lia|]. split; [lia|].
+  rewrite <- (app_nil_r (concat S)).
+  rewrite (slice_conn_mid S [] (Z.to_nat i) 1); [|lia|].
+  - rewrite (firstn1_skipn S (Z.to_nat i) []) by (unfold lenZ in *; lia). cbn [concat]. apply app_nil_r.
+  - rewrite (firstn1_skipn S (Z.to_nat i) []) by (unfold lenZ in *; lia). rewrite clen_single. lia.
+Qed.
+
+Theorem represents_canonical S : nonempty_all S -> represents (concat S) (offs_from 0 S) S.
+Proof.
+  intros A. constructor.
+  - apply offs_from_length.
+  - apply nthZ_offs_from_0.
+  - rewrite nthZ_offs_from_last. unfold clen. lia.
+  - intros i Hi. destruct (offs_step S i Hi) as (O1 & O2 & _). rewrite O1, O2.
+    assert (nthZ S i [] <> []).
+    { unfold nthZ. zb. unfold nonempty_all in A. rewrite Forall_forall in A. apply A, nth_In. unfold lenZ in *. lia. }
+    pose proof (nonempty_len _ H). lia.
+  - intros i Hi. apply (offs_step S i Hi).
+Qed.
+
+(* the decoder of Properties_C10.chunks (same text): elements cut out of the connectivity by the offsets *)
+Definition chunks_ (data offs : list Z) : list (list Z) :=
+  map (fun k => slice data (nthZ offs (Z.of_nat k) 0) (nthZ offs (Z.of_nat k + 1) 0 - nthZ offs (Z.of_nat k) 0))
+      (seq 0 (length offs - 1)).
+Lemma chunks_canonical S : chunks_ (concat S) (offs_from 0 S) = S.
+Proof.
+  assert (L : (length (offs_from 0 S) - 1 = length S)%nat)
+    by (pose proof (offs_from_length 0 S); unfold lenZ in *; lia).
+  unfold chunks_. rewrite L. apply (list_ext _ _ []).
+  - now rewrite map_length, seq_length.
+  - intros k Hk. rewrite map_length, seq_length in Hk. rewrite nth_map_seq by exact Hk.
+    destruct (offs_step S (Z.of_nat k)) as (_ & _ & SL); [unfold lenZ; lia|]. rewrite SL.
+    unfold nthZ. zb. now rewrite Nat2Z.id.
+Qed.
+
+Lemma fold_offs l : forall pre x,
+  fold_left (fun acc (e : list Z) => acc ++ [last acc 0 + lenZ e]) l (pre ++ [x]) = pre ++ offs_from x l.
+Proof.
+  induction l as [|e l IH]; intros pre x; [reflexivity|].
+  cbn [fold_left offs_from]. rewrite last_last, IH, <- app_assoc. reflexivity.
+Qed.
+
+(* Properties_C10.C10_poly_write_is_splice_full, verbatim (it was kept there as an unproved Definition) *)
+Theorem poly_full_statement :
+  forall type f E s N, (type = MIXED \/ type = NGON_n \/ type = NFACE_n) -> E <> [] -> N <> [] ->
+    Forall (fun e => e <> []) E -> Forall (fun e => e <> []) N ->
+    let offs l := fold_left (fun acc e => acc ++ [last acc 0 + lenZ e]) l [0] in
+    exists data o, poly_splice type f (f + lenZ E - 1) s (s + lenZ N - 1) (concat E) (offs E) (concat N) (offs N)
+                   = Some (Some (data, o)) /\
+                   chunks_ data o = splice (if type =? MIXED then [NODE; 0] else [0; 0]) f E s N.
+Proof.
+  intros type f E s N _ HE HN _ _ offs. subst offs. cbv beta.
+  rewrite !(fold_offs _ [] 0). cbn [app].
+  replace (if type =? MIXED then [NODE; 0] else [0; 0]) with (ph_of type)
+    by (unfold ph_of; destruct (type =? MIXED); reflexivity).
+  exists (concat (splice (ph_of type) f E s N)), (offs_from 0 (splice (ph_of type) f E s N)).
+  split; [|apply chunks_canonical].
+  rewrite <- (app_nil_r (concat E)). now apply poly_splice_is_splice.
+Qed.
+
+(* poly_splice level, everything the property says about a variable-size write in one statement *)
+Theorem poly_splice_represents type f E s N slack :
+  E <> [] -> N <> [] -> nonempty_all E -> nonempty_all N ->
+  exists data offs,
+    poly_splice type f (f + lenZ E - 1) s (s + lenZ N - 1) (concat E ++ slack) (offs_from 0 E) (concat N) (offs_from 0 N)
+    = Some (Some (data, offs)) /\
+    represents data offs (splice (ph_of type) f E s N).
+Proof.
+  intros HE HN AE AN. eexists. eexists. split; [now apply poly_splice_is_splice|].
+  apply represents_canonical. apply splice_nonempty_all; auto. discriminate.
+Qed.
+
+(* ---- 8. the in-place fast path: when it is taken, and that it computes what the general path computes -------------- *)
+(* the result of the fast path is the result of the in-memory splice (connectivity AND recomputed start offsets),
+   written into the node in place: the slack, the dimension and the range stay, the connectivity is not cached *)
+Theorem poly_inplace_eq_general pv st f E slack start N mt :
+  rep_poly st f E slack -> s_par st = None -> N <> [] -> nonempty_all N ->
+  s_conn_mem st = None -> f <= start -> start + lenZ N - 1 <= f + lenZ E - 1 ->
+  clen (slice_elems f E start (start + lenZ N - 1)) = clen N ->
+  exists st' data offs,
+    poly_elements_general_write pv st start (start + lenZ N - 1) mt (concat N) (offs_from 0 N) = ROk st' /\
+    poly_splice (s_type st) f (f + lenZ E - 1) start (start + lenZ N - 1) (concat E ++ slack) (offs_from 0 E)
+                (concat N) (offs_from 0 N) = Some (Some (data, offs)) /\
+    s_conn st' = data ++ slack /\ s_off st' = offs /\
+    (s_off_mem st' = None \/ s_off_mem st' = Some offs) /\
+    s_conn_mem st' = None /\ s_dim st' = s_dim st /\ s_r0 st' = s_r0 st /\ s_r1 st' = s_r1 st /\
+    lenZ data = clen E.
+Proof.
+  intros R Hpar HN AN Hmem H1 H2 HC.
+  destruct (poly_write_inplace pv st f E slack start N mt R Hpar HN AN Hmem H1 H2 HC) as (st' & W & R' & M' & D' & _).
+  exists st', (concat (splice (ph_of (s_type st)) f E start N)), (offs_from 0 (splice (ph_of (s_type st)) f E start N)).
+  split; [exact W|]. split; [apply poly_splice_is_splice; auto; apply R|].
+  split; [apply R'|]. split; [apply R'|]. split; [apply R'|]. split; [exact M'|]. split; [exact D'|].
+  split; [rewrite (rq_r0 _ _ _ _ R'), (rq_r0 _ _ _ _ R); reflexivity|].
+  pose proof (rq_dim _ _ _ _ R') as D1. pose proof (rq_dim _ _ _ _ R) as D2.
+  pose proof (splice_lenZ (ph_of (s_type st)) f E start N (rq_ne _ _ _ _ R) HN) as SL.
+  unfold splice_hi, splice_lo in SL. pose proof (nonempty_len N HN).
+  split; [rewrite (rq_r1 _ _ _ _ R'), (rq_r1 _ _ _ _ R), SL; lia|].
+  rewrite lenZ_concat. lia.
+Qed.
+
+(* WHEN the fast path is taken, in terms of the section and the request: exactly when the range is inside the stored
+   range, the connectivity is not cached and the replaced elements have the same total size as the new ones.  The
+   right-hand side is the observable signature of the fast path (node not cached afterwards, dimension and total
+   size unchanged); the relocating path changes the total size, the in-memory path caches. *)
+Theorem poly_inplace_iff pv st f E slack start N mt st' :
+  rep_poly st f E slack -> s_par st = None -> N <> [] -> nonempty_all N ->
+  poly_elements_general_write pv st start (start + lenZ N - 1) mt (concat N) (offs_from 0 N) = ROk st' ->
+  (s_conn_mem st = None /\ f <= start /\ start + lenZ N - 1 <= f + lenZ E - 1 /\
+   clen (slice_elems f E start (start + lenZ N - 1)) = clen N)
+  <-> (s_conn_mem st' = None /\ s_dim st' = s_dim st /\ clen (splice (ph_of (s_type st)) f E start N) = clen E).
+Proof.
+  intros R Hpar HN AN W. split.
+  - intros (Hmem & H1 & H2 & HC).
+    destruct (poly_write_inplace pv st f E slack start N mt R Hpar HN AN Hmem H1 H2 HC) as (st2 & W2 & R2 & M2 & D2 & _).
+    rewrite W in W2. inversion W2; subst st2. split; [exact M2|]. split; [exact D2|].
+    pose proof (rq_dim _ _ _ _ R2). pose proof (rq_dim _ _ _ _ R). lia.
+  - intros (M' & D' & CS).
+    assert (NM : forall st2, poly_elements_general_write pv st start (start + lenZ N - 1) mt (concat N) (offs_from 0 N) = ROk st2 ->
+                 s_conn_mem st2 <> None -> False) by (intros st2 W2 Q; rewrite W in W2; inversion W2; subst; auto).
+    destruct (s_conn_mem st) eqn:Hmem.
+    { destruct (poly_write_inmemory pv st f E slack start N mt R Hpar HN AN) as (st2 & W2 & _ & Q & _);
+        [left; congruence|]. destruct (NM st2 W2 Q). }
+    destruct (Z.lt_ge_cases start f) as [C1|C1].
+    { destruct (poly_write_inmemory pv st f E slack start N mt R Hpar HN AN) as (st2 & W2 & _ & Q & _); [auto|].
+      destruct (NM st2 W2 Q). }
+    destruct (Z.lt_ge_cases (f + lenZ E - 1) (start + lenZ N - 1)) as [C2|C2].
+    { destruct (poly_write_inmemory pv st f E slack start N mt R Hpar HN AN) as (st2 & W2 & _ & Q & _); [auto|].
+      destruct (NM st2 W2 Q). }
+    split; [reflexivity|]. split; [lia|]. split; [lia|].
+    destruct (inside_decomp (ph_of (s_type st)) f E start N (rq_ne _ _ _ _ R) HN C1 C2)
+      as (Hd & Mid & T & EQ & HL & HS & HM & SP).
+    rewrite HM. rewrite SP in CS. rewrite EQ in CS. rewrite !clen_app in CS. lia.
+Qed.
+
+(* the offsets of the addressed range MUST be recomputed although the total size is unchanged: same-size elements
+   with different individual sizes move the boundaries (the seeded change C10-1 dropped this) *)
+Lemma inplace_offsets_change :
+  let E := [[1;2;3]; [4;5;6;7]; [8;9;10]] in let N := [[21;22;23;24]; [25;26;27]] in
+  clen (slice_elems 10 E 10 11) = clen N /\
+  offs_from 0 (splice [0;0] 10 E 10 N) <> offs_from 0 E.
+Proof. split; [reflexivity|]. vm_compute. discriminate. Qed.
+
+(* ---- 9. witnesses -------------------------------------------------------------------------------------------------- *)
+(* an NGON_n section 10..12 with elements of sizes 3 4 3, as cg_poly_section_write + reopen leave it *)
+Definition ngon_state : section := mkS 22 I8 10 12 10 ngon3 None true 4 ngon_off None None.
+Lemma ngon_state_rep : rep_poly ngon_state 10 [[1;2;3]; [4;5;6;7]; [8;9;10]] [].
+Proof.
+  constructor; try reflexivity; cbn; auto; try discriminate.
+  repeat constructor; discriminate.
+Qed.
+
+(* space reserved by cg_section_general_write (14 values for 2 placeholder elements), node cached by a partial read *)
+Definition slack_state : section :=
+  mkS 22 I4 1 2 14 ([0;0;0;0] ++ repeat undef 10) (Some ([0;0;0;0] ++ repeat undef 10)) true 3 [0;2;4] (Some [0;2;4]) None.
+Lemma slack_state_rep : rep_poly slack_state 1 [[0;0]; [0;0]] (repeat undef 10).
+Proof.
+  constructor; try reflexivity; cbn; auto; try discriminate.
+  repeat constructor; discriminate.
+Qed.
+Lemma slack_state_reachable :
+  exists o, run PFixed RCurrent None [OSecGeneralWrite 22 I4 1 2 14; OPolyPartialRead 1 2 false] = ROk (Some slack_state, o).
+Proof. eexists. vm_compute. reflexivity. Qed.
+Lemma slack_state_outside : full_read_pre RCurrent slack_state = false.
+Proof. reflexivity. Qed.
+
+(* the statement "the full read answers every represented section", per variant; RFixed: proved, RCurrent: refuted *)
+Definition poly_full_read_total (rv : rvariant) : Prop :=
+  forall st f E slack, rep_poly st f E slack -> elems_ok (s_type st) E -> poly_elements_read rv st false <> RErr.
+Lemma poly_full_read_total_fixed : poly_full_read_total RFixed.
+Proof. intros st f E slack R OK. rewrite (poly_full_read RFixed st f E slack R OK eq_refl). discriminate. Qed.
+Lemma poly_full_read_total_current_refuted : ~ poly_full_read_total RCurrent.
+Proof.
+  intros H. apply (H slack_state 1 [[0;0];[0;0]] (repeat undef 10) slack_state_rep).
+  - intros Q. discriminate Q.
+  - reflexivity.
+Qed.
+
+(* input offsets that do not start at 0: the "before" / "front" branches memcpy them as they are, the stored
+   ElementStartOffset then does not start at 0 (hypothesis of the write theorems: offs_from 0 N) *)
+Lemma nonzero_base_refuted :
+  exists data offs, poly_splice 22 10 12 6 7 ngon3 ngon_off [21;22;23;24;25;26] [5;8;11] = Some (Some (data, offs)) /\
+                    nthZ offs 0 0 <> 0 /\ nthZ offs 7 0 <> lenZ data.
+Proof. eexists. eexists. split; [vm_compute; reflexivity|]. split; vm_compute; discriminate. Qed.
